@@ -118,6 +118,31 @@ func (st *Store) RangeOf(t *Term, signed bool) (lo, hi int64, ok bool) {
 			}
 			return l, h, true
 		}
+	case t.Op == "bvmul":
+		if !signed || t.S.W != 64 {
+			return 0, 0, false
+		}
+		al, ah, ok1 := st.RangeOf(t.Args[0], true)
+		bl, bh, ok2 := st.RangeOf(t.Args[1], true)
+		if ok1 && ok2 && abs64(al) < 1<<30 && abs64(ah) < 1<<30 && abs64(bl) < 1<<30 && abs64(bh) < 1<<30 {
+			l, h := al*bl, al*bl
+			for _, p := range []int64{al * bh, ah * bl, ah * bh} {
+				if p < l {
+					l = p
+				}
+				if p > h {
+					h = p
+				}
+			}
+			return l, h, true
+		}
+	case t.Op == "bvneg":
+		if !signed {
+			return 0, 0, false
+		}
+		if al, ah, ok1 := st.RangeOf(t.Args[0], true); ok1 && abs64(al) < 1<<60 && abs64(ah) < 1<<60 && (t.S.W == 64 || (-ah >= -(int64(1)<<uint(t.S.W-1)) && -al < int64(1)<<uint(t.S.W-1))) {
+			return -ah, -al, true
+		}
 	case t.Op == "bvand":
 		for _, a := range t.Args {
 			if a.Op == "const" && a.Val < 1<<62 && (t.S.W == 64 || a.Val < 1<<uint(t.S.W-1)) {
@@ -935,3 +960,6 @@ func (t *Term) String() string {
 }
 
 var _ = bits.Len
+
+// IsI2F is the exported form of isI2F.
+func (st *Store) IsI2F(t *Term) (*Term, bool) { return st.isI2F(t) }
